@@ -1,13 +1,14 @@
 -------------------------- MODULE MCBitswapEngine --------------------------
 (* Exhaustive model of BitswapEngine in the ideal mode (Devs = {}): small universe. *)
 EXTENDS BitswapEngine
-CONSTANTS MCLimits, MCMsgLen, MCIgnored, MCBig
+CONSTANTS MCLimits, MCMsgLen, MCIgnored, MCBig,
+          MCNCfg   \* 3: all three configurations per limit, 2: the first two
 
 MCDeny == [p \in Peers |-> IF p = 1 THEN {NC} ELSE {}]      \* peer 1 is denied the last CID
 NoDeny == [p \in Peers |-> {}]
-MCCfgs == UNION {{[limit |-> l, replace |-> TRUE,  sdh |-> TRUE,  deny |-> MCDeny, ignored |-> MCIgnored, big |-> MCBig],
-                  [limit |-> l, replace |-> FALSE, sdh |-> TRUE,  deny |-> NoDeny, ignored |-> MCIgnored, big |-> MCBig],
-                  [limit |-> l, replace |-> TRUE,  sdh |-> FALSE, deny |-> NoDeny, ignored |-> MCIgnored, big |-> MCBig]} : l \in MCLimits}
+MkCfg(l, r, sd, d) == [limit |-> l, replace |-> r, sdh |-> sd, deny |-> d, ignored |-> MCIgnored, big |-> MCBig]
+MCCfgs == UNION {{MkCfg(l, TRUE, TRUE, MCDeny), MkCfg(l, FALSE, FALSE, NoDeny)}
+                 \cup (IF MCNCfg >= 3 THEN {MkCfg(l, FALSE, TRUE, NoDeny), MkCfg(l, TRUE, FALSE, NoDeny)} ELSE {}) : l \in MCLimits}
 \* wantlists a peer may send: every single want / cancel, and every pair of want-blocks for two
 \* different CIDs in both orders with all priority combinations (in-message overflow and ordering);
 \* with MCMsgLen = 2 additionally every sequence of two arbitrary entries (duplicate CIDs, mixes)
